@@ -58,7 +58,7 @@ CHECKS["C08"] = dict(
          "within the universe bound; counterexamples are replayed against the real runtime.",
     design_ref="§4 C08, §9",
     note="Trusted: WBTreeMap / WBTreeSet as ordered finite maps with (left, right) callbacks (C14 is not decided by this family). Outside the claim: "
-         "clone independence / structure sharing, and invariant breaking through get_mut (documented in the source). Universe: 3 keys for arity <= 2 (quick) / <= 3 (thorough), 2 keys above; quick stops at arity 5; `mapped` is decided for arities <= 4 (quick) / <= 6 (thorough) only (arities 7-9 did not finish within 20 min per query).")
+         "clone independence / structure sharing, and invariant breaking through get_mut (documented in the source). Universe: 3 keys for arity <= 2 (quick) / <= 3 (thorough), 2 keys above; in the quick tier the point operations (insert, remove, contains, clear, iter, get, iter_restrictions) cover arities 0-9, the set-algebra operations stop at arity 5; `mapped` is decided for arities <= 4 (quick) / <= 6 (thorough) only (arities 7-9 did not finish within 20 min per query).")
 
 CHECKS["C05"] = dict(
     technique="bounded verification by SAT of the generated API functions (symbolic state and arguments) + interpretation of the real unification.rs; Kani (CBMC) on unification.rs in the thorough tier",
